@@ -71,8 +71,18 @@ def load_plugins(config: 'ConfigService', custom=None) -> List['Plugin']:
         except Exception as e:
             logging.debug("Could not load plugin %s: %s", plugin, e)
 
-    loaded.sort(key=lambda pl: pl.order() or 0)
+    loaded.sort(key=__order_of)
     return loaded
+
+
+def __order_of(plugin) -> int:
+    # a plugin that cannot tell its order (order() raises, or is not a number) is treated like one without a preference;
+    # it must not stop the other plugins, or the agent, from loading
+    try:
+        return int(plugin.order() or 0)
+    except Exception:
+        logging.debug("Plugin %s has no usable order.", plugin)
+        return 0
 
 
 class Plugin(abc.ABC):
